@@ -25,8 +25,8 @@ META = dict(
 # (mode, executions)
 MODES_Q = [('epoll', 70), ('epollng', 50), ('et', 50), ('fdapi', 50), ('epollbig', 6), ('epollngbig', 4), ('etbig', 4), ('fdapibig', 4),
            ('batchepoll', 3), ('batchepollng', 2), ('batchet', 2), ('batchfdapi', 2)]
-MODES_T = [('epoll', 900), ('epollng', 600), ('et', 600), ('fdapi', 600), ('epollbig', 60), ('epollngbig', 40), ('etbig', 40), ('fdapibig', 40),
-           ('batchepoll', 25), ('batchepollng', 15), ('batchet', 15), ('batchfdapi', 15)]
+MODES_T = [('epoll', 1500), ('epollng', 1000), ('et', 1000), ('fdapi', 1000), ('epollbig', 100), ('epollngbig', 60), ('etbig', 60), ('fdapibig', 60),
+           ('batchepoll', 40), ('batchepollng', 25), ('batchet', 25), ('batchfdapi', 25)]
 EPOLL_ENGINE = ('epoll', 'fdapi', 'epollbig', 'fdapibig', 'batchepoll', 'batchfdapi')
 
 # (module, cfg, timeout, witness: None = must hold | name of the property that must be violated)
